@@ -45,6 +45,14 @@ func (s CallSite) Common() *ssa.CallCommon { return s.Instr.Common() }
 func (s CallSite) Pos() token.Pos          { return s.Instr.Pos() }
 func (s CallSite) Block() *ssa.BasicBlock  { return s.Instr.Block() }
 
+// Value: the call as a value (nil for go/defer).
+func (s CallSite) Value() ssa.Value {
+	if v := s.Instr.Value(); v != nil {
+		return v
+	}
+	return nil
+}
+
 // Calls lists the call instructions (call, go, defer) of fn in block/instr order.
 func Calls(fn *ssa.Function) []CallSite {
 	var out []CallSite
